@@ -4,6 +4,9 @@ package flight12
 //symgo:param NBODY quick=1 thorough=2
 //symgo:param NMS quick=4 thorough=48
 //symgo:replace github.com/pion/dtls/v3/pkg/crypto/prf.PHash zzFinPHash
+//symgo:replace github.com/pion/dtls/v3/pkg/crypto/prf.PreMasterSecret zzFinPreMasterSecret
+//symgo:replace github.com/pion/dtls/v3/internal/handshakecrypto.VerifyCertificateVerify zzFinVerifyCertificateVerify
+//symgo:stub prf.PreMasterSecret (ECDH) is the uninterpreted function ECDH(peer public key, own private key); handshakecrypto.VerifyCertificateVerify records the signed bytes and returns an arbitrary verdict (valid / invalid)
 //symgo:stub prf.PHash(secret, seed, n) is the uninterpreted function PRF_n(secret, seed) and records its arguments; the PRF hash (CipherSuite.HashFunc) is a harness fake whose Sum is the uninterpreted function H(bytes written). prf.VerifyDataClient/VerifyDataServer themselves (label + Hash(messages)) run for real. That the real PHash is RFC 5246 P_hash is C10 (tls12_prf.go).
 //symgo:stub the cipher suite is a harness fake (Init records the master secret, no record protection); Conn is a harness fake (HandleQueuedPackets counts, SessionKey constant)
 //symgo:assume UF-collision-freedom (named assumption of C04): H and PRF are uninterpreted, so "verify_data equals PRF(master, label, H(T))" holds for every interpretation only if the code hashed exactly T; conversely tampering changes T and, for a collision-free hash/PRF, the expected verify_data
@@ -23,7 +26,11 @@ import (
 	dtlsflight "github.com/pion/dtls/v3/internal/flight"
 	dtlsstate "github.com/pion/dtls/v3/internal/state"
 	"github.com/pion/dtls/v3/pkg/crypto/clientcertificate"
+	"github.com/pion/dtls/v3/pkg/crypto/elliptic"
+	dtlshash "github.com/pion/dtls/v3/pkg/crypto/hash"
 	"github.com/pion/dtls/v3/pkg/crypto/prf"
+	"github.com/pion/dtls/v3/pkg/crypto/signature"
+	"github.com/pion/dtls/v3/pkg/crypto/signaturehash"
 	"github.com/pion/dtls/v3/pkg/protocol"
 	"github.com/pion/dtls/v3/pkg/protocol/alert"
 	"github.com/pion/dtls/v3/pkg/protocol/handshake"
@@ -64,13 +71,45 @@ var (
 // (That the real PHash is RFC 5246 section 5 P_hash is proved in C10/tls12_prf.go.)
 func zzFinPHash(secret, seed []byte, n int, _ prf.HashFunc) ([]byte, error) {
 	zzFinPHashLog = append(zzFinPHashLog, zzFinPHashCall{append([]byte{}, secret...), append([]byte{}, seed...), n})
-	return zzsymUF("PRF", n, secret, seed), nil
+	return zzsymUF(zzFinPRFName(n), n, secret, seed), nil
+}
+
+// zzFinPRFName: one uninterpreted function per output length used by the handshake (12: verify_data, 48: master secret).
+func zzFinPRFName(n int) string {
+	switch n {
+	case 12:
+		return "PRF12"
+	case 48:
+		return "PRF48"
+	}
+	return "PRF"
+}
+
+// zzFinPreMasterSecret replaces prf.PreMasterSecret (real ECDH / ML-KEM): an uninterpreted function of both keys.
+func zzFinPreMasterSecret(publicKey, privateKey []byte, _ elliptic.Curve) ([]byte, error) {
+	return zzsymUF("ECDH", 4, publicKey, privateKey), nil
+}
+
+type zzFinErr struct{}
+
+func (zzFinErr) Error() string { return "zzfin" }
+
+var zzFinCVLog [][]byte // the signed bytes of every VerifyCertificateVerify call
+
+// zzFinVerifyCertificateVerify replaces handshakecrypto.VerifyCertificateVerify: arbitrary verdict, input recorded.
+func zzFinVerifyCertificateVerify(bodies []byte, _ dtlshash.Algorithm, _ signature.Algorithm, _ []byte, _ [][]byte) error {
+	zzFinCVLog = append(zzFinCVLog, append([]byte{}, bodies...))
+	if zzsymBool("certificate_verify_valid") {
+		return nil
+	}
+	return zzFinErr{}
 }
 
 // zzFinReset clears the recording globals (all entries of the package share them).
 func zzFinReset() {
 	zzFinPHashLog = nil
 	zzFinHashLog = nil
+	zzFinCVLog = nil
 }
 
 // zzFinExpect is RFC 5246 section 7.4.9 written out:
@@ -80,7 +119,7 @@ func zzFinReset() {
 // with PRF(secret, label, seed) = P_hash(secret, label + seed) (section 5).
 func zzFinExpect(master []byte, label string, handshakeMessages []byte) []byte {
 	seed := append([]byte(label), zzFinH(handshakeMessages)...)
-	return zzsymUF("PRF", 12, master, seed)
+	return zzsymUF(zzFinPRFName(12), 12, master, seed)
 }
 
 const (
@@ -310,4 +349,247 @@ func zzFinClient() {
 	if !hasCert && !hasSKE && !hasCReq && !hasCCert && !hasCV {
 		zzsymCover("no_optional_present")
 	}
+}
+
+// Abbreviated (session resumption) handshake, client side: handleResumption (called by flight3Parse when the
+// ServerHello echoes the offered session id) on a cache holding optionally the first ClientHello +
+// HelloVerifyRequest, then ClientHello, ServerHello and the server's Finished (epoch 1); bodies NBODY arbitrary
+// bytes, verify_data 12 (or 11) arbitrary bytes, resumed master secret NMS arbitrary bytes. Proved: Flight5b
+// (client goes on to send its own Finished) is returned only if verify_data = PRF(master_secret,
+// "server finished", Hash(ClientHello + ServerHello))[0..11] (RFC 5246 section 7.3 figure 2: these are all the
+// messages that precede the server's Finished in an abbreviated handshake; the cookie-less ClientHello and the
+// HelloVerifyRequest are excluded per RFC 6347 section 4.2.1); otherwise fatal handshake_failure +
+// ErrVerifyDataMismatch and no next flight.
+//
+//symgo:entry covers=accepted,rejected,with_hvr,without_hvr,short_verify_data
+func zzFinResumeClient() {
+	zzFinReset()
+	suite := &zzFinSuite{auth: ciphersuite.AuthenticationTypeCertificate, kx: ciphersuite.KeyExchangeAlgorithmEcdhe}
+	state := zzFinState(true, suite, zzsymParam("NMS"))
+	state.SessionID = []byte{7}
+	cfg := zzFinConfig()
+
+	fl := &zzFinFlow{cache: dtlsflight.NewCache(), nbody: zzsymParam("NBODY")}
+	hvr := zzsymChoice("hvr", 2) == 1
+	if hvr {
+		fl.push("ch0", handshake.TypeClientHello, true, 0)
+		fl.push("hvr", handshake.TypeHelloVerifyRequest, false, 0)
+	}
+	ch := fl.push("ch", handshake.TypeClientHello, true, 0)
+	// flight3Parse calls handleResumption with HandshakeRecvSequence still at the ServerHello
+	state.HandshakeRecvSequence = int(fl.nextServer)
+	sh := fl.push("sh", handshake.TypeServerHello, false, 0)
+	vdLen := 12 - zzsymChoice("verify_data_short", 2)
+	verifyData := zzsymBytes("verify_data", vdLen)
+	fl.pushBody(handshake.TypeFinished, false, 1, verifyData)
+
+	want := zzFinExpect(state.MasterSecret, zzLabelServer, zzFinCat(ch, sh))
+
+	conn := &zzFinConn{}
+	next, a, err := handleResumption(context.Background(), conn, state, fl.cache, cfg)
+	if next != 0 {
+		zzsymAssert(next == Flight5b, "fin_resume_client/continues_with_flight5b")
+		zzsymAssert(zzsymAnd(a == nil, err == nil), "fin_resume_client/complete_without_alert")
+		zzsymAssert(zzsymEqBytes(verifyData, want), "fin_resume_client/server_finished_covers_whole_transcript")
+		zzsymCover("accepted")
+	} else {
+		zzsymAssert(a != nil && a.Level == alert.Fatal && a.Description == alert.HandshakeFailure, "fin_resume_client/reject_is_fatal_handshake_failure")
+		zzsymAssert(err == dtlserrors.ErrVerifyDataMismatch, "fin_resume_client/reject_is_verify_data_mismatch")
+		zzsymAssert(zzsymNot(zzsymEqBytes(verifyData, want)), "fin_resume_client/rejects_only_wrong_verify_data")
+		zzsymCover("rejected")
+		if vdLen != 12 {
+			zzsymCover("short_verify_data")
+		}
+	}
+	if hvr {
+		zzsymCover("with_hvr")
+	} else {
+		zzsymCover("without_hvr")
+	}
+}
+
+// Abbreviated (session resumption) handshake, server side: flight4bParse on a cache holding optionally the
+// first ClientHello + HelloVerifyRequest, then ClientHello, ServerHello, the server's own Finished (epoch 1)
+// and the client's Finished (epoch 1); bodies NBODY arbitrary bytes, the client's verify_data 12 (or 11)
+// arbitrary bytes, master secret NMS arbitrary bytes. Proved: Flight4b (handshake complete) is returned only if
+// verify_data = PRF(master_secret, "client finished", Hash(ClientHello + ServerHello + server Finished))[0..11]
+// (RFC 5246 section 7.3 figure 2 order, label of the peer); otherwise fatal handshake_failure +
+// ErrVerifyDataMismatch and no flight.
+//
+//symgo:entry covers=accepted,rejected,with_hvr,without_hvr,short_verify_data
+func zzFinResumeServer() {
+	zzFinReset()
+	suite := &zzFinSuite{auth: ciphersuite.AuthenticationTypeCertificate, kx: ciphersuite.KeyExchangeAlgorithmEcdhe, initialized: true}
+	state := zzFinState(false, suite, zzsymParam("NMS"))
+	state.SessionID = []byte{7}
+	cfg := zzFinConfig()
+
+	fl := &zzFinFlow{cache: dtlsflight.NewCache(), nbody: zzsymParam("NBODY")}
+	hvr := zzsymChoice("hvr", 2) == 1
+	if hvr {
+		fl.push("ch0", handshake.TypeClientHello, true, 0)
+		fl.push("hvr", handshake.TypeHelloVerifyRequest, false, 0)
+	}
+	ch := fl.push("ch", handshake.TypeClientHello, true, 0)
+	sh := fl.push("sh", handshake.TypeServerHello, false, 0)
+	sfin := fl.push("sfin", handshake.TypeFinished, false, 1)
+	state.HandshakeRecvSequence = int(fl.nextClient)
+	vdLen := 12 - zzsymChoice("verify_data_short", 2)
+	verifyData := zzsymBytes("verify_data", vdLen)
+	fl.pushBody(handshake.TypeFinished, true, 1, verifyData)
+
+	want := zzFinExpect(state.MasterSecret, zzLabelClient, zzFinCat(ch, sh, sfin))
+
+	next, a, err := flight4bParse(context.Background(), &zzFinConn{}, state, fl.cache, cfg)
+	if next != 0 {
+		zzsymAssert(next == Flight4b, "fin_resume_server/completes_as_flight4b")
+		zzsymAssert(zzsymAnd(a == nil, err == nil), "fin_resume_server/complete_without_alert")
+		zzsymAssert(zzsymEqBytes(verifyData, want), "fin_resume_server/client_finished_covers_whole_transcript")
+		zzsymCover("accepted")
+	} else {
+		zzsymAssert(a != nil && a.Level == alert.Fatal && a.Description == alert.HandshakeFailure, "fin_resume_server/reject_is_fatal_handshake_failure")
+		zzsymAssert(err == dtlserrors.ErrVerifyDataMismatch, "fin_resume_server/reject_is_verify_data_mismatch")
+		zzsymAssert(zzsymNot(zzsymEqBytes(verifyData, want)), "fin_resume_server/rejects_only_wrong_verify_data")
+		zzsymCover("rejected")
+		if vdLen != 12 {
+			zzsymCover("short_verify_data")
+		}
+	}
+	if hvr {
+		zzsymCover("with_hvr")
+	} else {
+		zzsymCover("without_hvr")
+	}
+}
+
+// zzFinClientFlight pushes the client's second flight of a full handshake with well-formed bodies (the server
+// parses these): [Certificate with one 1-byte certificate], ClientKeyExchange (ECDHE: 1-byte public key; PSK:
+// 1-byte identity), [CertificateVerify sha256/ecdsa with a 1-byte signature]; every payload byte arbitrary.
+func zzFinClientFlight(fl *zzFinFlow, psk, hasCCert, hasCV bool) (ccert, cke, cv []byte) {
+	if hasCCert {
+		// RFC 5246 7.4.2: certificate_list<0..2^24-1> of ASN.1Cert<1..2^24-1>
+		ccert = fl.pushBody(handshake.TypeCertificate, true, 0, append([]byte{0, 0, 4, 0, 0, 1}, zzsymBytes("ccert", 1)...))
+	}
+	if psk {
+		// RFC 4279 section 2: psk_identity<0..2^16-1>
+		cke = fl.pushBody(handshake.TypeClientKeyExchange, true, 0, append([]byte{0, 1}, zzsymBytes("cke_identity", 1)...))
+	} else {
+		// RFC 8422 5.7: ECPoint ecdh_Yc = opaque point<1..2^8-1>
+		cke = fl.pushBody(handshake.TypeClientKeyExchange, true, 0, append([]byte{1}, zzsymBytes("cke_public", 1)...))
+	}
+	if hasCV {
+		// RFC 5246 7.4.8: SignatureAndHashAlgorithm(2) opaque signature<0..2^16-1>
+		cv = fl.pushBody(handshake.TypeCertificateVerify, true, 0, append([]byte{4, 3, 0, 1}, zzsymBytes("cv_signature", 1)...))
+	}
+	return ccert, cke, cv
+}
+
+// Full DTLS 1.2 handshake, server side: flight4Parse (the server's only look at the client's second flight) on
+// a cache holding optionally the first ClientHello + HelloVerifyRequest, then ClientHello, ServerHello,
+// [Certificate], [ServerKeyExchange], [CertificateRequest], ServerHelloDone (bodies NBODY arbitrary bytes) and
+// the client's [Certificate], ClientKeyExchange, [CertificateVerify] (well-formed, payload bytes arbitrary) and
+// Finished (epoch 1, 12 arbitrary verify_data bytes). Three key-establishment modes: keys already derived by an
+// earlier flight4Parse call that was still waiting for Finished (master secret NMS arbitrary bytes), plain PSK
+// with the classic master secret, certificate-authenticated ECDHE with extended master secret (ECDH and the
+// signature check stubbed). Client authentication none or require-any. Asserted: Flight6 (the server sends its
+// own Finished and reports success) is returned only if the client's verify_data = PRF(master_secret,
+// "client finished", Hash(T))[0..11], T = ClientHello ... CertificateVerify in RFC 5246 section 7.3 order
+// (label fin_server_full/client_finished_not_verified). Also asserted: a CertificateVerify is checked over
+// ClientHello ... ClientKeyExchange (RFC 5246 section 7.4.8).
+// KNOWN TO FAIL on the current tree (design finding F5): flight4Parse pulls the client's Finished from the
+// cache, checks only that it decodes, and never computes or compares verify_data.
+//
+//symgo:entry covers=flight6,flight6_keys_already_derived,flight6_psk,flight6_cert_ems,flight6_with_client_cert,not_complete,with_hvr,without_hvr
+func zzFinServerFull() {
+	zzFinReset()
+	mode := zzsymChoice("mode", 3) // 0 keys already derived, 1 PSK classic master secret, 2 certificate ECDHE + EMS
+	suite := &zzFinSuite{auth: ciphersuite.AuthenticationTypeCertificate, kx: ciphersuite.KeyExchangeAlgorithmEcdhe}
+	cfg := zzFinConfig()
+	var state *dtlsstate.State12
+	switch mode {
+	case 0:
+		suite.initialized = true
+		state = zzFinState(false, suite, zzsymParam("NMS"))
+	case 1:
+		suite.auth, suite.kx = ciphersuite.AuthenticationTypePreSharedKey, ciphersuite.KeyExchangeAlgorithmPsk
+		state = zzFinState(false, suite, 0)
+		psk := zzsymBytes("psk", 1)
+		cfg.LocalPSKCallback = func([]byte) ([]byte, error) { return psk, nil }
+	case 2:
+		state = zzFinState(false, suite, 0)
+		state.ExtendedMasterSecret = true
+		state.LocalKeypair = &elliptic.Keypair{Curve: elliptic.X25519, PublicKey: []byte{1}, PrivateKey: zzsymBytes("server_private", 1)}
+	}
+	copy(state.LocalRandom.RandomBytes[:], zzsymBytes("server_random", 2))
+	copy(state.RemoteRandom.RandomBytes[:], zzsymBytes("client_random", 2))
+	cfg.LocalSignatureSchemes = []signaturehash.Algorithm{{Hash: dtlshash.SHA256, Signature: signature.ECDSA}}
+	if zzsymChoice("client_auth", 2) == 1 {
+		cfg.ClientAuth = dtlsconfig.RequireAnyClientCert
+	}
+
+	fl := &zzFinFlow{cache: dtlsflight.NewCache(), nbody: zzsymParam("NBODY")}
+	hvr := zzsymChoice("hvr", 2) == 1
+	hasCert := zzsymChoice("cert", 2) == 1
+	hasSKE := zzsymChoice("ske", 2) == 1
+	hasCReq := zzsymChoice("certreq", 2) == 1
+	hasCCert := zzsymChoice("ccert", 2) == 1
+	hasCV := zzsymChoice("certverify", 2) == 1
+	if hvr {
+		fl.push("ch0", handshake.TypeClientHello, true, 0)
+		fl.push("hvr", handshake.TypeHelloVerifyRequest, false, 0)
+	}
+	var cert, ske, creq []byte
+	ch := fl.push("ch", handshake.TypeClientHello, true, 0)
+	sh := fl.push("sh", handshake.TypeServerHello, false, 0)
+	if hasCert {
+		cert = fl.push("cert", handshake.TypeCertificate, false, 0)
+	}
+	if hasSKE {
+		ske = fl.push("ske", handshake.TypeServerKeyExchange, false, 0)
+	}
+	if hasCReq {
+		creq = fl.push("creq", handshake.TypeCertificateRequest, false, 0)
+	}
+	shd := fl.push("shd", handshake.TypeServerHelloDone, false, 0)
+	state.HandshakeRecvSequence = int(fl.nextClient)
+	ccert, cke, cv := zzFinClientFlight(fl, mode == 1, hasCCert, hasCV)
+	verifyData := zzsymBytes("verify_data", 12)
+	fl.pushBody(handshake.TypeFinished, true, 1, verifyData)
+
+	conn := &zzFinConn{}
+	next, _, _ := flight4Parse(context.Background(), conn, state, fl.cache, cfg)
+
+	// RFC 5246 7.4.8: the CertificateVerify signature covers every message from ClientHello up to, not including, itself
+	for _, signed := range zzFinCVLog {
+		zzsymAssert(zzsymEqBytes(signed, zzFinCat(ch, sh, cert, ske, creq, shd, ccert, cke)), "fin_server_full/certificate_verify_covers_transcript")
+	}
+	if next == 0 {
+		zzsymCover("not_complete")
+		return
+	}
+	zzsymAssert(next == Flight6, "fin_server_full/completes_as_flight6")
+	zzsymAssert(suite.initialized, "fin_server_full/keys_derived_before_completion")
+	if mode != 0 {
+		zzsymAssert(zzsymEqBytes(suite.initMaster, state.MasterSecret), "fin_server_full/cipher_keyed_with_master_secret")
+	}
+	zzsymCover("flight6")
+	switch mode {
+	case 0:
+		zzsymCover("flight6_keys_already_derived")
+	case 1:
+		zzsymCover("flight6_psk")
+	case 2:
+		zzsymCover("flight6_cert_ems")
+	}
+	if hasCCert {
+		zzsymCover("flight6_with_client_cert")
+	}
+	if hvr {
+		zzsymCover("with_hvr")
+	} else {
+		zzsymCover("without_hvr")
+	}
+	// RFC 5246 7.4.9: handshake_messages for the client's Finished = everything before it, 7.3 order
+	want := zzFinExpect(state.MasterSecret, zzLabelClient, zzFinCat(ch, sh, cert, ske, creq, shd, ccert, cke, cv))
+	zzsymAssert(zzsymEqBytes(verifyData, want), "fin_server_full/client_finished_not_verified")
 }
